@@ -127,8 +127,17 @@ theorem fact_save_in_write_tx_notify_after_commit :
     Facts.C14.writePayloadSaveInWriteTx = 1 ∧ Facts.C14.writePayloadSaveOutsideWriteTx = 0 ∧
     Facts.C14.writePayloadNotifyInAfterCommit = 1 ∧ Facts.C14.writePayloadNotifyElsewhere = 0 := by decide
 
-/-- State.WritePayload returns before saveEvent when the payload is already stored and then does not notify -/
-theorem fact_writePayload_skips_stored_payload : Facts.C14.writePayloadSkipsPresent = true := by decide
+/-- State.WritePayload returns before saveEvent, and then does not notify, exactly when the payload event of THIS
+    transaction was saved before: the test is keyed by the transaction ref (not by the payload hash), and both Add
+    (with payload) and WritePayload set the marker inside the write transaction that saves the event -/
+theorem fact_writePayload_skips_stored_payload :
+    Facts.C14.writePayloadSkipsPresent = true ∧
+    Facts.C14.writePayloadSkipCondition = "isPayloadEventSaved(tx, transaction.Ref())" ∧
+    Facts.C14.addMarksPayloadEventInWriteTx = 1 ∧ Facts.C14.writePayloadMarksPayloadEventInWriteTx = 1 ∧
+    Facts.C14.payloadEventMarker =
+      ["isPayloadEventSaved: tx.GetShelfReader(payloadEventShelf).Get(stoabs.NewHashKey(ref))",
+       "markPayloadEventSaved: tx.GetShelfWriter(payloadEventShelf).Put(stoabs.NewHashKey(ref), <*ast.ArrayType>{1})"] :=
+  ⟨rfl, rfl, rfl, rfl, rfl⟩
 
 /-- the write-back of notifyNow leaves an event alone that was removed (Finished) while the receiver ran -/
 theorem fact_write_back_skips_removed_event : Facts.C14.writeBackSkipsGone = true := by decide
@@ -176,13 +185,28 @@ theorem admitted_by_commit (c : Cfg) (σ : St) (a : AddArgs) (h : (addTx c σ a)
   · exact absurd h hn
   · exact ⟨h1, h2⟩
 
+/-- a payload event per TRANSACTION: when the payload of an admitted transaction arrives and the commit succeeds, the
+    payload event of that transaction is admitted unless ITS event was saved before - whatever payloads (e.g. the
+    byte-identical payload of another transaction) are already in the payload store. With `no_loss` every selecting
+    subscriber then holds a job for it or has completed it. -/
+theorem payload_event_per_transaction (c : Cfg) (σ : St) (r : Nat) (hd : r ∈ σ.dag) (hne : r ∉ σ.evented) :
+    (writePayload c σ r false).2 = .ok ∧ (r, EvType.payload) ∈ (writePayload c σ r false).1.admitted ∧
+    r ∈ (writePayload c σ r false).1.evented := by
+  unfold writePayload
+  rw [if_neg (fun h => h hd), if_neg (by simp), if_neg (fun h => hne h.2)]
+  simp only
+  refine ⟨trivial, ?_, ?_⟩
+  · rw [saveEvent_admitted]; exact List.mem_cons_self
+  · rw [(saveEvent_spec _ _ _).evented]; exact List.mem_cons_self
+
 /-! ### only_admitted_delivered -/
 
 /-- **only_admitted_delivered**: every receiver call in the ledger is for a transaction on the DAG, for an event the
     subscriber's filters select; a payload event is only delivered when the payload is stored. -/
 theorem only_admitted_delivered (c : Cfg) (ops : List Op) (s r : Nat) (ty : EvType) (k : Nat) (o : Outcome)
     (h : Entry.call s r ty k o ∈ (run c init ops).ledger) :
-    r ∈ (run c init ops).dag ∧ c.sel s r ty = true ∧ (ty = .payload → c.phash r ∈ (run c init ops).payloads) :=
+    r ∈ (run c init ops).dag ∧ c.sel s r ty = true ∧
+    (ty = .payload → c.phash r ∈ (run c init ops).payloads ∧ r ∈ (run c init ops).evented) :=
   ((Inv.init c).run ops).callOk s r ty k o h
 
 /-- the DAG only contains refs whose `Add` committed: a rejected / failed / rolled-back `Add` changes nothing -/
@@ -268,6 +292,21 @@ example : Typed (wCfg true allDone) 3 .payload :=
     (List.mem_cons_self) rfl _ rfl
 example : (0, EvType.payload) ∈ (run (wCfg true allDone) init secondPayloadOps).admitted ∧
     (wCfg true allDone).sel 3 0 .payload = true ∧ completedIn (run (wCfg true allDone) init secondPayloadOps).ledger 3 0 = true := by decide
+
+/-- witness (all refs of `wCfg` have the same payload hash): transaction 0 arrives with its payload, the private
+    transaction 1 without; when the byte-identical payload of 1 arrives, vcr_vcs (3) is called for transaction 1 too,
+    and a duplicate of that message calls nobody -/
+def identicalPayloadOps : List Op :=
+  [.add { ref := 0, withPayload := true }, .afterCommit [0, 1, 2, 3, 4], .afterCommit [0, 1, 2, 3, 4],
+   .add { ref := 1 }, .afterCommit [0, 1, 2, 3, 4],
+   .writePayload 1 false, .afterCommit [0, 1, 2, 3, 4], .finishedExt 1 1 false,
+   .writePayload 1 false, .afterCommit [0, 1, 2, 3, 4], .finishedExt 1 1 false]
+
+theorem identical_payload_witness :
+    (wCfg true allDone).phash 0 = (wCfg true allDone).phash 1 ∧
+    (1, EvType.payload) ∈ (run (wCfg true allDone) init identicalPayloadOps).admitted ∧
+    ((run (wCfg true allDone) init identicalPayloadOps).ledger.filter (Entry.isCallOf 3 1)) = [.call 3 1 .payload 0 .done] ∧
+    ((run (wCfg true allDone) init identicalPayloadOps).ledger.filter (Entry.isCallOf 3 0)).length = 1 := by decide
 
 /-! ### delivered at least once across a stop: restart_redelivers -/
 
